@@ -50,6 +50,16 @@ func main() {
 			}
 			p.Families = keep
 		}
+		for _, f := range p.Families {
+			if b, ok := p.Bounds[f]; ok {
+				if b[0] < *kl {
+					*kl = b[0]
+				}
+				if b[1] < *km {
+					*km = b[1]
+				}
+			}
+		}
 		loadKnown(*known)
 		info, err := buildProgram(p, *plug, *out, *kl, *km)
 		must(err)
